@@ -61,6 +61,14 @@ def run(res, tier, seed, driver_ok):
             arm.setJointProperties(lo.copy(), hi.copy())
         spec.mins, spec.maxs = lo.copy(), hi.copy()
         mid, half = (lo + hi) / 2, (hi - lo) / 2
+        # a third of the arms carry a tool: the tool frame was changed (setArbitraryHome) and not restored before the solve
+        tool6 = None
+        if rnd.random() < 0.33:
+            tool6 = list(np.concatenate([G.translation(rnd, 0.5), G.rotvec(rnd, rnd.choice(['zero', 'one', 'generic']))[0]]))
+            Dm = armh.T6(np.array(tool6, dtype=float))
+            with contextlib.redirect_stdout(io.StringIO()):
+                arm.setArbitraryHome(tm(arm.getEEPos().gTM() @ Dm))
+            spec.M = spec.M @ Dm
         pos_tol, rot_tol = rnd.choice([(1e-4, 1e-5), (1e-3, 1e-4), (1e-5, 1e-4), (1e-4, 1e-3)])
         arm.pos_tolerance, arm.rot_tolerance = pos_tol, rot_tol
         baseT = armh.T6(spec.base6)
@@ -99,7 +107,7 @@ def run(res, tier, seed, driver_ok):
         th = np.asarray(th, dtype=float).reshape(-1)
         ok = bool(ok)
         inp = {'arm': kind, 'seed_arm': seed_arm, 'base6': list(base6), 'limit': [lo.tolist(), hi.tolist()], 'pos_tol': pos_tol, 'rot_tol': rot_tol, 'goal_kind': gk, 'theta_goal': thg.tolist(),
-               'start': start.tolist(), 'path': path, 'check': check, 'start_form': form}
+               'start': start.tolist(), 'path': path, 'check': check, 'start_form': form, 'tool_change': tool6}
         T_fk = spec.fk(baseT, spec.M, th)           # independent FK of the returned vector (no clamping: the vector itself is judged)
         if ok:
             stats['success'] += 1
@@ -158,7 +166,7 @@ def run(res, tier, seed, driver_ok):
                         if eo2 > rot_tol * (1 + 1e-6) + 1e-12 or ev2 > pos_tol * (1 + 1e-6) + 1e-12:
                             bad('false-success:%s:%s' % (path2, 'orientation' if eo2 > rot_tol * (1 + 1e-6) else 'position'),
                                 'IK reports success but FK of the returned joint vector misses the configured tolerance',
-                                {'arm': kind, 'seed_arm': seed_arm, 'base6': list(base6), 'limit': [lo.tolist(), hi.tolist()], 'pos_tol': pos_tol, 'rot_tol': rot_tol, 'start_is_solution_of_displaced_goal': True,
+                                {'arm': kind, 'seed_arm': seed_arm, 'base6': list(base6), 'limit': [lo.tolist(), hi.tolist()], 'pos_tol': pos_tol, 'rot_tol': rot_tol, 'tool_change': tool6, 'start_is_solution_of_displaced_goal': True,
                                  'theta_start': ths.tolist(), 'displaced_component': k, 'multiple_of_tolerance': mult, 'path': path2},
                                 {'orientation_error': eo2, 'rot_tol': rot_tol, 'position_error': ev2, 'pos_tol': pos_tol})
         # local convergence clause (sampled)
@@ -214,6 +222,11 @@ def replay(data):
         else:
             arm.setJointProperties(np.ones(n) * -lim, np.ones(n) * lim)
     arm.pos_tolerance, arm.rot_tolerance = inp['pos_tol'], inp['rot_tol']
+    if inp.get('tool_change'):
+        Dm = armh.T6(np.array(inp['tool_change'], dtype=float))
+        with contextlib.redirect_stdout(io.StringIO()):
+            arm.setArbitraryHome(tm(arm.getEEPos().gTM() @ Dm))
+        spec.M = spec.M @ Dm
     baseT = armh.T6(spec.base6)
     if inp.get('start_is_solution_of_displaced_goal'):
         ths = np.array(inp['theta_start'])
